@@ -27,6 +27,18 @@ def gen_lines(rng, tier):
         lines.append('mysqlpktenc %d %s' % (rng.randrange(256), framegen.rnd_payload(rng, big=rng.random() < 0.05).hex() or '-'))
         c41 = 512 | sum(c for c in caps if rng.random() < 0.4)
         lines.append('mysqlssl41 %d %d %d' % (c41, rng.choice([0, 0xffff, 2 ** 24, 2 ** 32 - 1]), rng.choice(charsets)))
+        # initial handshake: every capability subset (PLUGIN_AUTH decides the auth-data tail and the plugin name)
+        hc = sum(c for c in caps if rng.random() < 0.5)
+        if rng.random() < 0.3:
+            hc = rng.choice(caps) | rng.choice(caps)
+        if hc & 32768:
+            hc |= 524288
+        stf = [v for _, v in flags['MySQLStatusFlag']]
+        plugin = hc & 524288
+        lines.append('mysqlhs %s %d %s %d %d %d %s %s' % (
+            rng.choice(['8.0.33', '5.7.42-log', '10.6.12-MariaDB', '5']).encode().hex(), rng.randrange(2 ** 32), framegen.rnd_bytes(rng, 8).hex(), hc,
+            rng.choice(charsets), sum(f for f in stf if rng.random() < 0.3),
+            (framegen.rnd_bytes(rng, 12).hex() + '00') if plugin else '-', rng.choice(['mysql_native_password', 'caching_sha2_password']).encode().hex() if plugin else '_'))
         c320 = sum(c for c in caps if c < 65536 and c != 512 and rng.random() < 0.4)
         lines.append('mysqlssl320 %d %d' % (c320, rng.choice([0, 0xffff, 2 ** 24 - 1])))
         acks = [rng.randrange(2 ** 32) for _ in range(rng.choice([0, 0, 1, 2, 5, 255]))]
@@ -80,6 +92,22 @@ def run(chk):
                               {'cmd': l, 'model': m, 'impl': i, 'correspondence': 'parse_cotp'}, None, False)
     else:
         chk.violation('model runner does not build: %s' % br.failed_file, {'error': br.error}, None, False)
+    # LDAP StartTLS: each class accepts its own operation only, and gives back what was composed
+    try:
+        from cryptoparser.tls.ldap import LDAPExtendedRequestStartTLS, LDAPExtendedResponseStartTLS, LDAPResultCode
+        req = bytes(LDAPExtendedRequestStartTLS().compose())
+        for code in LDAPResultCode:
+            resp = bytes(LDAPExtendedResponseStartTLS(code).compose())
+            r1 = impl.outcome(lambda: type(LDAPExtendedRequestStartTLS.parse_exact_size(resp)).__name__)
+            r2 = impl.outcome(lambda: type(LDAPExtendedResponseStartTLS.parse_exact_size(req)).__name__)
+            r3 = impl.outcome(lambda: LDAPExtendedResponseStartTLS.parse_exact_size(resp).result_code.name)
+            if r1.startswith('OK') or r2.startswith('OK') or r1.startswith('LEAK') or r2.startswith('LEAK') or r3 != 'OK ' + code.name:
+                chk.violation('LDAP StartTLS: a response (%s) given to the request parser: %s; a request given to the response parser: %s; the response parsed by its '
+                              'own class: %s' % (code.name, r1, r2, r3), {'ldap_result_code': code.name}, None, True)
+                break
+        extra.append('ldap')
+    except ImportError:
+        pass
     chk.coverage['evaluations'] = len(lines) + len(extra)
     chk.coverage['distinct_nontrivial'] = len(set(l for l, o in zip(lines, impl_out) if o.startswith('OK')))
     chk.coverage['traces_validated_against_impl'] = len(lines) + len(extra)
@@ -90,7 +118,7 @@ def run(chk):
                             'implementation incl. the class of the returned object')
     for i in range(0, len(lines), max(1, len(lines) // 8)):
         chk.sample({'cmd': lines[i][:140], 'outcome': impl_out[i][:100]})
-    chk.assumptions += ['LDAP StartTLS messages rest on asn1crypto and are covered by the C01-C05 sweeps only; MySQLHandshakeV10 is not in the specification yet']
+    chk.assumptions += ['LDAP StartTLS messages rest on asn1crypto (oracle for BER); only the operation check and the result code are compared']
 
 
 def replay(path):
